@@ -9,7 +9,8 @@
 //! format names are logged on every event (`o.sg`, `o.fl`; `o.sgt`/`o.flt` = core::any::type_name),
 //! so a changed Signed/Float table is SEEN by the specification instead of breaking this build.
 //!
-//! All events are stateless; an execution is a `reset` header followed by a group of events.
+//! All events are stateless; an execution is a `reset` header followed by a group of events.  The crate is built and
+//! run in BOTH profiles (props/frame.py); the reset line says which one wrote the trace (`o.debug` = cfg!(debug_assertions)).
 //! Samples travel as {"n","l"} limbs (integers) or IEEE fields {"s","e","m"} (floats); a frame is a
 //! JSON array of samples (the bare sample is a 1-element array), a slice of frames an array of those.
 //!   s_add_amp s_mul_amp   a{fmt,s,amp}            r val | panic
@@ -26,10 +27,13 @@
 //!   f_channels             a{fmt,n,x}             r items                 o{lens,fused,refs,rev,cn}
 //!   f_channels_mut         a{fmt,n,x,ys}          r val frame             o{seen}
 //!   f_channel              a{fmt,n,x,i,v}         r some|none (channel)   o{m,after (channel_mut), u,uafter (unchecked, i < n only)}
-//!   f_iter                 a{fmt,n,x,it,k,kb,op,j,v}  r items             o{pre,preb,len,sh,rest,cnt,after,cn}
+//!   f_iter                 a{fmt,n,x,it,k,kb,op,j,v}  r items             o{pre,preb,len,sh,rest,cnt,clen,csh,after,cn}
 //!       it = val|ref|mut: channels() / channels_ref() / channels_mut() used AS AN ITERATOR: k times next() (`pre` = what
 //!       came out), kb times next_back() (`preb`; ref / mut only), then ONE call `op` with argument j on what is left:
-//!       nth(j) | skip(j) | step_by(j) | last | count | collect | rev | nth_back(j)  (the last two: ref / mut only).
+//!       nth(j) | skip(j) | step_by(j) | last | count | collect | rev | nth_back(j)  (the last two: ref / mut only)
+//!       | clone | cycle(j)  (val / ref only: ChannelsMut is not Clone).  clone: r = what the CLONE yields when drained,
+//!       `clen` / `csh` = its len() / size_hint() at birth (else -1), then `len[2]` / `sh[2]` / `rest` = the ORIGINAL
+//!       afterwards.  cycle(j): r = cycle().take(j).
 //!       r = the items that call yielded (adaptors are drained through `take(cap)`, so an iterator that never ends shows
 //!       up as a wrong result, not as a hang); `len` / `sh` = len() / size_hint() [lo, hi or -1] when fresh, after the
 //!       prefix and after the call (nth / nth_back; else -1); `rest` = what next() yields after nth / nth_back; `cnt` =
@@ -151,7 +155,7 @@ where
 // encoding happen once per FORMAT in `frame_event` / `slice_event`.
 
 /// A frame type of the harness: [S; N] for every N (const generic) and the bare sample.
-trait Fr<S: Hx>: Frame<Sample = S, Channels: ExactSizeIterator> {
+trait Fr<S: Hx>: Frame<Sample = S, Channels: ExactSizeIterator + Clone> {
     fn build(x: &[S]) -> Self;
     fn dump(&self, out: &mut Vec<S>);
 }
@@ -263,6 +267,8 @@ enum IOp {
     Collect,
     Rev,
     NthBack,
+    Clone,
+    Cycle,
 }
 /// Plain inputs and pre-allocated outputs of one `f_iter` event.
 struct IterIo<S> {
@@ -282,6 +288,8 @@ struct IterIo<S> {
     lens: [i64; 3],
     sh: [[i64; 2]; 3],
     cnt: i64,
+    clen: i64,
+    csh: [i64; 2],
 }
 fn hint(h: (usize, Option<usize>)) -> [i64; 2] {
     [h.0 as i64, h.1.map(|u| u as i64).unwrap_or(-1)]
@@ -299,6 +307,8 @@ fn iter_drive<S: Copy, I: ExactSizeIterator>(
     next_back: impl Fn(&mut I) -> Option<I::Item>,
     nth_back: impl Fn(&mut I, usize) -> Option<I::Item>,
     rev_all: impl FnOnce(I, usize, &mut dyn FnMut(I::Item)),
+    clone_of: impl Fn(&I) -> Option<I>,
+    cycle_all: impl FnOnce(I, usize, &mut dyn FnMut(I::Item)),
 ) {
     let (cap, j) = (io.cap, io.j);
     io.lens[0] = it.len() as i64;
@@ -353,6 +363,31 @@ fn iter_drive<S: Copy, I: ExactSizeIterator>(
         IOp::Rev => {
             let items = &mut io.items;
             rev_all(it, cap, &mut |r| items.push(wr(r)));
+        }
+        IOp::Clone => {
+            // the clone is born (len / size_hint logged) and drained FIRST, then the original is looked at again
+            if let Some(mut c) = clone_of(&it) {
+                io.clen = c.len() as i64;
+                io.csh = hint(c.size_hint());
+                while io.items.len() < cap {
+                    match c.next() {
+                        Some(r) => io.items.push(rd(r)),
+                        None => break,
+                    }
+                }
+            }
+            io.lens[2] = it.len() as i64;
+            io.sh[2] = hint(it.size_hint());
+            while io.rest.len() < cap {
+                match it.next() {
+                    Some(r) => io.rest.push(rd(r)),
+                    None => break,
+                }
+            }
+        }
+        IOp::Cycle => {
+            let items = &mut io.items;
+            cycle_all(it, j.min(cap), &mut |r| items.push(rd(r)));
         }
     }
 }
@@ -539,7 +574,17 @@ where
             let mut fx = fx;
             let it = &mut io.it;
             match it.kind {
-                0 => iter_drive(fx.channels(), it, |s| s, |s| s, |_| None, |_, _| None, |_, _, _| ()),
+                0 => iter_drive(
+                    fx.channels(),
+                    it,
+                    |s| s,
+                    |s| s,
+                    |_| None,
+                    |_, _| None,
+                    |_, _, _| (),
+                    |i| Some(i.clone()),
+                    |i, m, f| i.cycle().take(m).for_each(f),
+                ),
                 1 => iter_drive(
                     fx.channels_ref(),
                     it,
@@ -548,6 +593,8 @@ where
                     |i| i.next_back(),
                     |i, j| i.nth_back(j),
                     |i, cap, f| i.rev().take(cap).for_each(f),
+                    |i| Some(i.clone()),
+                    |i, m, f| i.cycle().take(m).for_each(f),
                 ),
                 _ => {
                     let v = it.v.unwrap();
@@ -559,6 +606,8 @@ where
                         |i| i.next_back(),
                         |i, j| i.nth_back(j),
                         |i, cap, f| i.rev().take(cap).for_each(f),
+                        |_| None, // ChannelsMut is not Clone
+                        |_, _, _| (),
                     )
                 }
             }
@@ -680,6 +729,8 @@ where
                 Some("count") => IOp::Count,
                 Some("rev") => IOp::Rev,
                 Some("nth_back") => IOp::NthBack,
+                Some("clone") => IOp::Clone,
+                Some("cycle") => IOp::Cycle,
                 Some("collect") | None => IOp::Collect,
                 Some(o) => panic!("harness: unknown iterator call {}", o),
             },
@@ -696,6 +747,8 @@ where
             lens: [-1; 3],
             sh: [[-1; 2]; 3],
             cnt: -1,
+            clen: -1,
+            csh: [-1; 2],
         },
     };
     let f: fn(Op, &mut FrameIo<S>) = S::pick_frame(n);
@@ -771,6 +824,8 @@ where
             o["sh"] = json!(it.sh);
             o["rest"] = enc_vec(&it.rest);
             o["cnt"] = json!(it.cnt);
+            o["clen"] = json!(it.clen);
+            o["csh"] = json!(it.csh);
             o["after"] = enc_vec(&it.after);
             o["cn"] = json!(io.nums[0]);
             if ok {
@@ -1238,7 +1293,7 @@ fn exec(out: &mut Out, ex: &[Value], only: &str) {
     if !only.is_empty() && only != comp {
         return;
     }
-    out.line(&json!({"ev": "reset", "comp": comp, "cfg": reset["cfg"], "r": r_unit(), "o": {"ok": true}}));
+    out.line(&json!({"ev": "reset", "comp": comp, "cfg": reset["cfg"], "r": r_unit(), "o": {"ok": true, "debug": cfg!(debug_assertions)}}));
     for op in &ex[1..] {
         let ev = op["ev"].as_str().unwrap();
         let a = &op["a"];
@@ -1414,6 +1469,33 @@ fn edge_sample(rng: &mut Rng, f: &Fm) -> V {
 fn edge_samples(rng: &mut Rng, f: &Fm, n: usize) -> Vec<V> {
     (0..n).map(|k| if k == 0 || rng.chance(3, 4) { edge_sample(rng, f) } else { rand_sample(rng, f) }).collect()
 }
+/// LANDING (round 5): an amplitude a of the integer format f and an offset d (in units of f, representable in f's Signed
+/// format) whose exact sum is the target t -- used with t = MIN, MIN + 1, MAX, MAX - 1: the in-range results that sit on
+/// the edge of the format, where a build without overflow checks decides between "in range" and "wrap around".
+fn land(rng: &mut Rng, f: &Fm, t: i128) -> (i128, i128) {
+    let s = fm(f.sg);
+    let shift = s.bits - f.bits;
+    let lo = ((-s.half()) >> shift).max(t - (f.half() - 1));
+    let hi = ((s.half() - 1) >> shift).min(t + f.half());
+    let d = rand_amp_in(rng, lo, hi);
+    (t - d, d)
+}
+fn land_target(rng: &mut Rng, f: &Fm, first: bool) -> i128 {
+    let h = f.half();
+    if first {
+        return -h;
+    }
+    *rng.pick(&[-h, -h, -h + 1, h - 1, h - 1, h - 2])
+}
+fn land_pairs(rng: &mut Rng, f: &Fm, m: usize) -> (Vec<V>, Vec<V>) {
+    let pairs: Vec<(i128, i128)> = (0..m)
+        .map(|c| {
+            let t = land_target(rng, f, c == 0);
+            land(rng, f, t)
+        })
+        .collect();
+    (pairs.iter().map(|p| V::I(p.0)).collect(), pairs.iter().map(|p| V::I(img(f, p.1))).collect())
+}
 fn zero_of(rng: &mut Rng, f: &Fm) -> V {
     if f.float {
         V::F(if rng.chance(1, 2) { -0.0 } else { 0.0 })
@@ -1513,6 +1595,7 @@ fn gen(seed: u64, size: &str, path: &str) {
     let edge_sample_reps = if thorough { 400 } else { 24 };
     let edge_reps = if thorough { 4 } else { 1 };
     let mut execs: Vec<Vec<Value>> = Vec::new();
+    let mut late: Vec<Vec<Value>> = Vec::new(); // executions placed at the end of the file
     let reset = |comp: &str, f: &Fm, n: usize, tag: &str| json!({"ev":"reset","comp":comp,"cfg":{"src":"rand","fmt":f.name,"n":n,"tag":tag}});
     // HX_PART=frame|slice restricts the file to one property's stimuli (default: both)
     let part = std::env::var("HX_PART").unwrap_or_default();
@@ -1546,6 +1629,12 @@ fn gen(seed: u64, size: &str, path: &str) {
             ex.push(json!({"ev":"s_add_amp","a":{"fmt":f.name,"s":vj(f,s),"amp":vj(&sg,z)}}));
             ex.push(json!({"ev":"s_to_signed","a":{"fmt":f.name,"s":vj(f,s)}}));
             ex.push(json!({"ev":"s_to_float","a":{"fmt":f.name,"s":vj(f,s)}}));
+            if !f.float {
+                // an offset whose exact result is MIN / MIN + 1 / MAX / MAX - 1 of the format
+                let t = land_target(&mut rng, f, false);
+                let (a, d) = land(&mut rng, f, t);
+                ex.push(json!({"ev":"s_add_amp","a":{"fmt":f.name,"s":vj(f,V::I(a)),"amp":vj(&sg,V::I(img(f,d)))}}));
+            }
         }
         execs.push(ex);
     }
@@ -1603,6 +1692,23 @@ fn gen(seed: u64, size: &str, path: &str) {
                 let x = edge_samples(&mut rng, f, nn);
                 let z: Vec<V> = (0..nn).map(|_| zero_of(&mut rng, &sg)).collect();
                 ex.push(json!({"ev":"f_add","a":{"fmt":f.name,"n":n,"x":vjs(f,&x),"y":vjs(&sg,&z)}}));
+                if !f.float {
+                    // landing on the edge of the format: per-channel offsets (the first channel lands on MIN exactly), and
+                    // one offset for all channels from values just inside the bottom / the top of the range
+                    let (x, y) = land_pairs(&mut rng, f, nn);
+                    ex.push(json!({"ev":"f_add","a":{"fmt":f.name,"n":n,"x":vjs(f,&x),"y":vjs(&sg,&y)}}));
+                    let h = f.half();
+                    let shift = sg.bits - f.bits;
+                    let low = rng.chance(2, 3);
+                    let d = if low { rand_amp_in(&mut rng, ((-sg.half()) >> shift).max(-2 * h + 3), 0) } else { rand_amp_in(&mut rng, 0, ((sg.half() - 1) >> shift).min(2 * h - 3)) };
+                    let x: Vec<V> = (0..nn)
+                        .map(|c| {
+                            let e = if c == 0 { 0 } else { rng.below(3) as i128 };
+                            V::I(if low { -h + e - d } else { h - 1 - e - d })
+                        })
+                        .collect();
+                    ex.push(json!({"ev":"f_offset","a":{"fmt":f.name,"n":n,"x":vjs(f,&x),"amp":vj(&sg,V::I(img(f,d)))}}));
+                }
             }
             // the channel iterators used as iterators: nth / skip / step_by / last / count / collect (and rev / nth_back
             // from channels_ref / channels_mut) on an iterator that has ALREADY been advanced, from both ends where it has two
@@ -1642,6 +1748,18 @@ fn gen(seed: u64, size: &str, path: &str) {
                     for op in finals {
                         let (k, kb, _) = adv(&mut rng);
                         push(&mut rng, k, kb, op, 0);
+                    }
+                    if kind != "mut" {
+                        // clone-and-continue: clone an ADVANCED iterator, drain the clone, then the original; cycle() (which
+                        // clones) far enough to wrap around at least once; the clone of an exhausted iterator
+                        let (k, kb, _) = adv(&mut rng);
+                        push(&mut rng, k, kb, "clone", 0);
+                        let (k, kb, left) = adv(&mut rng);
+                        let j = left + 1 + rng.below(nn as u64 + 1) as usize;
+                        push(&mut rng, k, kb, "cycle", j);
+                        if !de || thorough {
+                            push(&mut rng, nn + 1, 0, "clone", 0);
+                        }
                     }
                     if de {
                         let (k, kb, left) = adv(&mut rng);
@@ -1726,7 +1844,7 @@ fn gen(seed: u64, size: &str, path: &str) {
             let mut pairs: Vec<(usize, usize)> = Vec::new();
             for la in 0..=4usize {
                 for lb in 0..=4usize {
-                    if thorough || nn <= 3 || la == lb || la + 1 == lb || (la == 3 && lb == 0) || (la == 0 && lb == 2) {
+                    if thorough || nn <= 3 || la == lb || la + 1 == lb || (la == 3 && lb == 0) || (la == 2 && lb == 1) || (la == 0 && lb == 2) {
                         pairs.push((la, lb));
                     }
                 }
@@ -1735,11 +1853,18 @@ fn gen(seed: u64, size: &str, path: &str) {
                 let l = rng.range(5, if thorough { 100 } else { 12 }) as usize;
                 pairs.push((l, l));
                 pairs.push((l, l + 1));
+                pairs.push((l + 1, l));
             }
-            for op in ["zip_map", "write", "add", "add_amp", "equilibrium", "map"] {
-                let mut ex = vec![reset("slice", f, n, "inplace")];
+            // (the pairs with a LONGER than b go into executions of their own at the very end of the file: code that skips the
+            // length check reads b out of bounds there and may crash the process; everything else is judged event by event)
+            for (op, longer) in [("zip_map", false), ("write", false), ("add", false), ("add_amp", false), ("equilibrium", false), ("map", false),
+                                 ("zip_map", true), ("write", true), ("add", true), ("add_amp", true)] {
+                let mut ex = vec![reset("slice", f, n, if longer { "inplace_longer" } else { "inplace" })];
                 for &(la, lb) in pairs.iter() {
                     let two = !(op == "equilibrium" || op == "map");
+                    if two && (la > lb) != longer {
+                        continue;
+                    }
                     if !two && lb != 0 && lb != la + 1 {
                         continue;
                     }
@@ -1771,17 +1896,29 @@ fn gen(seed: u64, size: &str, path: &str) {
                     ex.push(json!({"ev":"inplace","a":{"fmt":f.name,"n":n,"op":op,"la":la,"lb":lb,
                         "xa":vframes(f,&xa,nn),"xb":xbj,"ys":vframes(f,&ys,nn),"ampf":vjs(&af,&amp)}}));
                 }
-                execs.push(ex);
+                if longer {
+                    late.push(ex);
+                } else {
+                    execs.push(ex);
+                }
             }
             // the in-place additions as identities on extreme values: add the zero slice; add with gain 1.0 per channel of
             // the zero slice; add with gain 1.0 of a slice of extreme Signed amplitudes onto a slice that leaves room for it
             let mut ex = vec![reset("slice", f, n, "inplace_edge")];
             let ones: Vec<V> = vec![V::F(1.0); nn];
             for l in [1usize, 2, rng.range(3, if thorough { 40 } else { 6 }) as usize] {
-                for variant in 0..3 {
+                for variant in 0..4 {
+                    if variant == 3 && f.float {
+                        continue;
+                    }
                     let (op, xa, xb): (&str, Vec<V>, Vec<V>) = match variant {
                         0 => ("add", edge_samples(&mut rng, f, l * nn), (0..l * nn).map(|_| zero_of(&mut rng, &sg)).collect()),
                         1 => ("add_amp", edge_samples(&mut rng, f, l * nn), (0..l * nn).map(|_| zero_of(&mut rng, &sg)).collect()),
+                        3 => {
+                            // landing: every sum is exactly MIN / MIN + 1 / MAX / MAX - 1 of the format (the first one MIN)
+                            let (xa, xb) = land_pairs(&mut rng, f, l * nn);
+                            ("add", xa, xb)
+                        }
                         _ => {
                             let xb = edge_samples(&mut rng, &sg, l * nn);
                             // destination at (or a step inside) equilibrium on the side that keeps the sum representable
@@ -1802,6 +1939,7 @@ fn gen(seed: u64, size: &str, path: &str) {
             execs.push(ex);
         }
     }
+    execs.append(&mut late);
     write_stimuli(path, &execs);
 }
 
